@@ -170,7 +170,7 @@ def parse_file_text(text: str) -> dict:
                         (fl,) = val
                         patch["faces"] = [[_i(x) for x in q] for q in fl]
                     else:
-                        patch["settings"].append((key + " " + " ".join(str(x) for x in val)).strip())
+                        patch["settings"].append((key + " " + " ".join(_flat(x) for x in val)).strip())
                 patches.append(patch)
             p.next()
             p.expect(";")
